@@ -68,6 +68,19 @@ def run(tier, vd):
     r5["viol"] = [v for v in res5["viol"] if v["rule"] in ("Q1", "Q2", "PANIC")]
     report_viols(vd, "C13", r5, {"world": "dns", "seed": sd}, lambda v: {"rule": v["rule"], "world": "dns"}, lambda v: "dns %s %s" % (v["rule"], v["p"]))
 
+    # 6. pending fragments: two nodes exchanging oversized datagrams under device back-pressure (the sender is polled
+    #    again and again whatever poll_at says, so a deadline that forgets the fragments left over shows as Q1)
+    ffz = []
+    for k in range(2 if tier == "quick" else 6):
+        tf = os.path.join(OUT, "traces", "c13.frag.%d.ndjson" % k)
+        run_harness(exe, ["frag-random", "--seed", sd * 100 + 80 + k, "--runs", 200 if tier == "quick" else 1000, "--out", tf])
+        ffz.append(tf)
+    res6 = validate_traces("FragTrace", ffz, parallel=8)
+    vd.add_validation(res6)
+    r6 = dict(res6)
+    r6["viol"] = [v for v in res6["viol"] if v["rule"] in ("Q1", "Q2", "PANIC")]
+    report_viols(vd, "C13", r6, {"world": "frag", "seed": sd}, lambda v: {"rule": v["rule"], "world": "frag"}, lambda v: "frag %s %s" % (v["rule"], v["p"]))
+
     def mut(e):
         if e.get("ev") == "poll" and e.get("kind") == "probe" and not e.get("out"):
             e["out"] = [{"et": "ip4", "proto": 6, "ty": -1, "len": 54}]
@@ -76,7 +89,7 @@ def run(tier, vd):
     canary_check(vd, "PollAtTrace", files[0], mut, "Q1", "c13.Q1")
     vd.cov["exhaustive"] = True
     vd.assumptions += ["IGMP/MLD report frames are exempt (the property excludes their timers)", "DHCP lease timing under a talking server is covered by C18; the DNS socket is probed here with concurrent queries, fail-over timing is C19's",
-                       "fragment-pending deadlines are exercised by C12's world, not probed here"]
+                       "fragment-pending deadlines are probed in C12's two-node world (FragTrace rules Q1 / Q2)"]
 
 
 def replay(obj, vd):
@@ -101,6 +114,18 @@ def replay(obj, vd):
         from checks import c18
         obj["property"] = "C13"
         c18.replay(obj, vd)
+    elif w == "frag":
+        run_harness(exe, ["frag-random", "--seed", ev0["seed"], "--runs", ev0["run"] + 1, "--out", tf])
+        runs = split_runs(tf)
+        with open(tf, "w") as f:
+            for e in runs[ev0["run"]]:
+                f.write(json.dumps(e) + "\n")
+        res = validate_traces("FragTrace", [tf], parallel=1)
+        vd.add_validation(res)
+        res = dict(res)
+        res["viol"] = [v for v in res["viol"] if v["rule"] in ("Q1", "Q2", "PANIC")]
+        report_viols(vd, "C13", res, obj["ctx"], lambda v: {"rule": v["rule"], "world": "frag"})
+        vd.add_model("replay only", FakeTlc())
     elif w == "dns":
         run_harness(exe, ["dns-random", "--seed", ev0["seed"], "--runs", ev0["run"] + 1, "--servers", ev0["cfg"]["servers"], "--out", tf])
         runs = split_runs(tf)
